@@ -67,6 +67,7 @@ KINDS = [
     "derived request (tuple pairs)", "derived request (list overload, tuple items)", "arithmetic on a composition", "derived request (one category at an exponent)",
     "Unknown-type conversions", "Unknown-type values", "ObtainQuantity(u,c,caption)", "ObtainQuantity(u,None,caption)", "GetUnits()/GetInfos()", "GetInfo", "FindSimilarUnitMatches", "IsValidCategory/CheckQuantityType", "quantity getters", "db.Sum/Multiply",
     "Unknown-type values (the caller keeps them)", "Create{Area,Volume}QuantityFromLengthQuantity", "questions about the quantity without a unit",
+    "product (c,u) * (c2,v)", "product (c2,v) * (c,u)",
 ]  # fmt: skip
 
 
@@ -249,6 +250,11 @@ def run_query(db, q):
                     r.append(helper(lq))
                 except Exception as e:
                     r.append(H.family(e))
+        elif kind in ("product (c,u) * (c2,v)", "product (c2,v) * (c,u)"):
+            # the same two factors in either order: each order has its own unit and category strings ('m.s' / 's.m')
+            a_, b_ = Scalar(c, x, u), Scalar(c2, 2.0, v)
+            p_ = a_ * b_ if kind.startswith("product (c,u)") else b_ * a_
+            r = [p_, p_.GetUnit(), p_.GetCategory(), p_.GetQuantityType(), list(p_.GetQuantity().GetCategoryToUnitAndExps())]
         elif kind == "questions about the quantity without a unit":
             # the unit-less quantity has the empty string as category and unit: asking about it registers nothing
             es = Scalar.CreateEmptyScalar(x)
@@ -305,7 +311,9 @@ def run_query(db, q):
     except RecursionError:
         return ("exc", "RecursionError")
     except Exception as e:
-        return ("exc", H.family(e))
+        # (family first - that is what the statement speaks of; the class as well: a repeated or a warm query that fails in
+        # another class than the first / the fresh one shows what was remembered in between)
+        return ("exc", H.family(e), type(e).__name__)
     try:
         return ("ok", H.canon(r))
     except Exception as e:
@@ -486,6 +494,12 @@ def override_scripts():
     scripts.append(cube + [("query", q) for q in helper_q] + [("reg", ("AddUnit", ("volume", "cubic centimetre", "cm3", "%f*1000000.0", "%f/1000000.0"), {}))] + [("query", q) for q in helper_q])
     label_q = [(k, "length", 3.0, "m", "weird label", "length") for k in ("Unknown-type values", "Unknown-type conversions", "Unknown-type values (the caller keeps them)")]
     scripts.append(unk + [("query", q) for q in label_q] + [("reg", ("AddUnit", ("Unknown", "a label that became a unit", "weird label", "%f*2.0", "%f/2.0"), {}))] + [("query", q) for q in label_q])
+    # the same two factors multiplied in one order, then in the other (and the reverse history)
+    both = setup + [reg("AddCategory", "time", "time")] if not any(c_[1][1][:1] == ("time",) and c_[1][0] == "AddCategory" for c_ in setup) else setup
+    for kinds_ in (("product (c,u) * (c2,v)", "product (c2,v) * (c,u)"), ("product (c2,v) * (c,u)", "product (c,u) * (c2,v)")):
+        scripts.append(both + [("query", (k_, "length", 5.0, "m", "s", "time")) for k_ in kinds_] + [("query", (k_, "length", 5.0, "cm", "min", "time")) for k_ in kinds_])
+    # a question that fails, asked twice in a row (what is remembered of the first failure must not change the second)
+    scripts.append(setup + [("query", (k_, "nope", 5.0, "m", "cm", "length")) for k_ in ("CheckCategoryUnit", "CheckCategoryUnit", "derived request (tuple pairs)", "derived request (tuple pairs)", "Scalar(c,x,u)", "Scalar(c,x,u)")])
     # tuple-pair requests first, arithmetic afterwards (and the other way round)
     for first, second in (("derived request (tuple pairs)", "arithmetic on a composition"), ("derived request (list overload, tuple items)", "arithmetic on a composition"), ("arithmetic on a composition", "derived request (tuple pairs)")):
         for cat, u in (("length", "m"), ("length", "cm"), ("depth", "m")):
